@@ -39,6 +39,8 @@ static inline void xv_str_init(xv_str* s) { unsigned long cap = nondet_xv_cap();
 static inline void xv_str_push_back(xv_str* s, char c) { __CPROVER_assert(s->size + 1 < XV_STR_CAP, "string model: capacity bound not exceeded"); s->data[s->size] = c; s->size = s->size + 1; }
 
 #define XV_VEC_AT(v,i) ((v)->data[i])
+/* std::array::at: out_of_range for i >= N (element 0 stands in for the reference that is never used after the throw) */
+#define XV_ARR_AT(arr, n, i) ((i) >= (n) ? (xv_exc = XV_EXC_out_of_range, &(arr)[0]) : &(arr)[i])
 #define XV_ARR_FILL(xp, xval) __CPROVER_array_set((xp)->a, (xval))   /* std::array::fill: every element set */
 
 /* unsigned multiplication as an uninterpreted function (units lowered with uf_mul): sound for proving that two
